@@ -23,8 +23,14 @@ def new_run():
         "every builtin check x value family x option subset, every string "
         "class (quotes, yaml-ish, keywords, words that are bare names in a "
         "generated script such as nan/inf/Timestamp, ...) in every text slot "
-        "and every string-valued check argument, every dtype alias, "
-        "duplicated check kinds), a history catalogue (the same check = kind "
+        "and every string-valued check argument (string classes include "
+        "unicode line breaks NEL/LS/PS, control characters, invisible "
+        "characters, astral code points, white space at the edges and text "
+        "longer than a line), every dtype alias, duplicated check kinds, "
+        "statistics of another python type than the data: float bounds "
+        "(fractional, whole, infinite) on every integer dtype, integers / "
+        "bigints on every float dtype, numbers on untyped components), "
+        "a history catalogue (the same check = kind "
         "+ dtype + fresh statistics held with different options by two "
         "components of one schema, in both orders, and by consecutive "
         "schemas read by the same process: sequences of 2-3 specs), "
@@ -32,7 +38,10 @@ def new_run():
         "(statistics from the pool or from a wide random range) and random "
         "sequences (a spec, then close variants of it); every spec runs the "
         "real to_yaml/from_yaml, to_json/from_json, to_script+exec, the "
-        "second generation writer and a repeated write; a sequence is one "
+        "second generation writer and a repeated write, and - for specs "
+        "with non-ascii / control / long text and every third other spec - "
+        "the file form of each route (write to a path, read the path, write "
+        "again); a sequence is one "
         "case, its later elements are judged like any spec (what a read "
         "returns may not depend on earlier reads); non-trivial = the spec "
         "has at least one non-default serialisable attribute and at least "
@@ -53,7 +62,8 @@ def new_run():
          "non-string column labels (JSON object keys are strings), "
          "numerically equal statistics that differ only in int/float type "
          "or in the sign of zero, schemas whose >=/<= pair the writer "
-         "refuses as contradictory",
+         "refuses as contradictory; that a written file holds the same "
+         "text as the returned string is not promised and not compared",
          "failing cases are minimised by re-executing the real writers on "
          "specs with one feature removed at a time; the mechanism key is a "
          "function of the minimal witness"])
@@ -152,6 +162,7 @@ def _one_spec(run, label, spec, seed_key, collect, history):
                               "exc"))
     reached = False
     route_kinds = {}
+    with_files = _file_form_too(spec, toks)
     for route in O.ROUTES:
         if route == "json" and any(not isinstance(c["name"], str)
                                    for c in spec["columns"]):
@@ -159,7 +170,8 @@ def _one_spec(run, label, spec, seed_key, collect, history):
             # JSON-serialisable part, the statement does not cover it
             run.count("undecided:json-route-skipped-non-string-column-label")
             continue
-        r = O.evaluate(spec, route, probes=probes, twin_verdicts=twin_v)
+        r = O.evaluate(spec, route, probes=probes, twin_verdicts=twin_v,
+                       file_route=with_files)
         route_kinds[route] = list(r.kinds)
         for u in r.undecided:
             run.count("undecided:" + u)
@@ -184,6 +196,22 @@ def _one_spec(run, label, spec, seed_key, collect, history):
         "probe_verdicts_original": [v[0] for v in twin_v]}
 
 
+ENCODING_SENSITIVE = ("unicode", "ulinebreak", "control", "invisible",
+                      "astral", "newline", "edgews", "long")
+
+
+def _file_form_too(spec, toks):
+    """The file form of every route (write to a path, read the path) is run
+    for every spec holding text that an encoding / newline / line-width
+    treatment could change, and for every third other spec."""
+    for t in toks:
+        head, _, val = t.partition(":")
+        if head.endswith((".name", ".title", ".description", ".check-arg")) \
+                and any(c in val for c in ENCODING_SENSITIVE):
+            return True
+    return int(canon_hash(spec)[:8], 16) % 3 == 0
+
+
 def count_tokens(run, label, toks):
     """Evidence counters that are a function of the generated spec alone."""
     if label.startswith(("sibling.", "seq:")):
@@ -202,6 +230,8 @@ def count_tokens(run, label, toks):
                         run.count("strarg:" + cls)
         elif head == "xcomp.checks":
             run.count("sibling:" + val)
+        elif head.endswith(".xtype"):       # statistic type vs data type
+            run.count("xtype:" + val)
         if ".check:" in t or ".dtype:" in t or ".check-opt:" in t \
                 or ".check-arg:" in t:
             run.count("class:" + t)
@@ -217,7 +247,7 @@ def _attribute(run, label, spec, route, r, probes_for, collect, history=()):
         mini, needed, n = O.minimise(cur, route, kind, probes_for)
         run.count("minimiser_evaluations", n)
         probes = probes_for(mini)
-        rm = O.evaluate(mini, route, probes=probes)
+        rm = O.evaluate(mini, route, probes=probes, file_route=True)
         if kind not in rm.kinds:        # flaky reproduction: report as is
             rm, mini = res, cur
         mtoks = G.tokens(mini)
@@ -256,7 +286,8 @@ def _attribute(run, label, spec, route, r, probes_for, collect, history=()):
         if nxt == cur:
             return
         cur = nxt
-        res = O.evaluate(cur, route, probes=probes_for(cur))
+        res = O.evaluate(cur, route, probes=probes_for(cur),
+                         file_route=True)
     run.count("attribution_truncated")
 
 
@@ -299,7 +330,7 @@ def replay(path):
                 O.evaluate(h, rt, probes=pf(h))
         for rt in O.ROUTES:
             ro = O.evaluate(wit["original_spec"], rt,
-                            probes=pf(wit["original_spec"]))
+                            probes=pf(wit["original_spec"]), file_route=True)
             if rt == route:
                 if set(wit["kinds"]) & set(ro.kinds):
                     found = ro
@@ -308,7 +339,7 @@ def replay(path):
                                   "tokens": wit.get("original_tokens")},
                                  default=repr))
                 break
-    r = O.evaluate(spec, route, probes=pf(spec))
+    r = O.evaluate(spec, route, probes=pf(spec), file_route=True)
     print(json.dumps({"route": route, "kinds": r.kinds, "detail": r.detail,
                       "tokens": G.tokens(spec)}, indent=1, default=repr))
     print(r.text)
